@@ -572,7 +572,8 @@ fn drive_sub(r: &mut Rng, n: usize, log: &mut Log) {
 
 /// one container grown to 5..12 distinct members in random order (with queries in between), then shrunk in another order
 fn gen_grow_shrink(r: &mut Rng) -> Vec<Value> {
-    let k = 5 + r.below(8);
+    // usually 5..12 members; now and then around a power of two (inline capacities, block sizes)
+    let k = if r.chance(1, 6) { *r.pick(&[16usize, 17, 18, 32, 33, 34, 40]) } else { 5 + r.below(8) };
     let kind = r.below(5);
     let mut items: Vec<Vec<u8>> = Vec::new();
     while items.len() < k {
@@ -635,7 +636,7 @@ fn gen_grow_shrink(r: &mut Rng) -> Vec<Value> {
         if r.chance(1, 2) && !left.is_empty() { let q = left[r.below(left.len())].clone(); query(r, &q, &mut ops); }
         if r.chance(1, 3) { query(r, &it, &mut ops); }
         if r.chance(1, 5) { add(r, &it, &mut ops, &left); left.push(it); }
-        if ops.len() > 90 { break; }
+        if ops.len() > 260 { break; }
     }
     ops
 }
